@@ -182,7 +182,10 @@ def oracle(ctx, recipe: dict, built: G.Built, obs: Observed, expect_valid: set) 
     found = findings(recipe, built, obs, expect_valid)
     for sig, msg in found:
         ctx.count(f'oracle:{sig}')
-        if ctx.distribution[f'oracle:{sig}'] <= PER_SIGNATURE:
+        if any(k['property'] == ctx.prop and k['signature'] == sig for k in ctx.known):
+            # a recorded finding: only counted (KNOWN-FINDING line), no shrinking needed
+            ctx.oracle_fail(sig, {'recipe': recipe, 'expect_valid': sorted(expect_valid)}, msg)
+        elif ctx.distribution[f'oracle:{sig}'] <= PER_SIGNATURE:
             small = shrink(recipe, sig, expect_valid) if ctx.distribution[f'oracle:{sig}'] == 1 else recipe
             if small is not recipe:
                 again = [m for s, m in findings_of(small, expect_valid) if s == sig]
